@@ -18,8 +18,10 @@ def lineloop(ctx, keep, what):
     (input, fault, stop) -> items on the real readers (R). keep selects the cases that belong to the calling property."""
     n = 0
     for fmt in ("samh", "sam", "bed"):
-        ctx.model_check("MC_LineLoop", "MC_LineLoop_" + fmt, workers=16, heap="8g", timeout=3000)
-        r = ctx.model_check("MC_LineLoop", "MC_LineLoop_%s_emit" % fmt, workers=1, count=False)
+        # (no -coverage for this model: with the recursive line grammars inside every step TLC's coverage counters slow it down by more
+        # than two orders of magnitude; its non-vacuity is shown by the refuted variant MC_LineLoop_broken and by leg R)
+        ctx.model_check("MC_LineLoop", "MC_LineLoop_" + fmt, workers=16, heap="8g", timeout=3000, coverage=False)
+        r = ctx.model_check("MC_LineLoop", "MC_LineLoop_%s_emit" % fmt, workers=1, count=False, coverage=False)
         cases = [c for c in codec.emitted_cases(r["out"]) if keep(c)]
         n += len(cases)
         codec.replay_cases(ctx, "lineloop-replay", cases, "line loop (%s)" % what,
